@@ -24,7 +24,7 @@ G = ["g2", "g1"]
 H = ["hd", "hb", "ha", "hc"]
 K = [10, -2, 9]  # string order differs from numeric order
 YC = ["u", "w", "v"]
-VARIANTS = ["str", "cat-ord", "ord-cat", "unused"]
+VARIANTS = ["str", "cat-ord", "ord-cat", "unused", "num-dtypes"]
 _FR = {}
 
 
@@ -59,6 +59,11 @@ def frame(n, variant, rot):
         df["g"] = pd.Categorical(df["g"], categories=["g2", "g1"])
         order["f"] = ["fc", "fa", "fb"]
         df["yc"] = pd.Categorical(df["yc"], categories=["w", "v", "u"])
+    elif variant == "num-dtypes":  # numeric columns of other dtypes hold their values just the same
+        df["x"] = df["x"].astype("float32").astype("float64")  # float32 products would be rounded in float32: not a labelling issue
+        df["z"] = (df["z"] * 10).round().astype("int8")
+        df["y"] = (df["y"] > 0)
+        df["k"] = df["k"].astype("int16")
     elif variant == "unused":  # declared categories that never occur
         df["f"] = pd.Categorical(df["f"], categories=["fc", "fz", "fa", "fb"], ordered=True)  # ordered: all declared levels, in that order
         df["g"] = pd.Categorical(df["g"], categories=["g2", "gz", "g1"])  # unordered: the observed levels, sorted
